@@ -47,6 +47,13 @@ class RL(ASTNode):
     v: int = 0
     nc: int = field(default=0, compare=False)
 
+    def __post_init__(self) -> None:
+        # validates AFTER the base initialisation: a replace() that fails here fails late,
+        # when the new node already exists (and is registered)
+        ASTNode.__post_init__(self)
+        if self.nc < 0:
+            raise ValueError("negative nc")
+
 
 @dataclass(frozen=True)
 class RS(RL):
@@ -210,6 +217,8 @@ class Model:
                     ops += [("rep_c", r)]
         for r, n in enumerate(nodes):
             ops += [("detach", r), ("detach_self", r), ("rep_bad", r)]
+            if isinstance(n, RL):
+                ops.append(("rep_bad_late", r))
         for i, s in enumerate(w.slots):
             if s is not None:
                 ops.append(("drop", i))
@@ -296,15 +305,24 @@ class Model:
             else:
                 new = construct(lambda: src.replace(c=None))
             w.track(new)
-        elif k == "rep_bad":
+        elif k in ("rep_bad", "rep_bad_late"):
             src = nodes[op[1]]
             before = {i: id(o) for i, o in NODE_REGISTRY.items()}
+            ids_before = [(n.id, hash(n)) for n in nodes]
             try:
-                src.replace(nosuch=1)
-                errs.append(("no-raise", "replace(nosuch=1) did not raise"))
-            except TypeError:
+                if k == "rep_bad":
+                    src.replace(nosuch=1)
+                else:
+                    src.replace(nc=-1)
+                errs.append(("no-raise", "a failing replace did not raise"))
+            except (TypeError, ValueError):
                 pass
             after = {i: id(o) for i, o in NODE_REGISTRY.items()}
+            if before != after:
+                gc.collect()  # lazily: the half-built node of a late failure is garbage once the exception is gone
+                after = {i: id(o) for i, o in NODE_REGISTRY.items()}
+            if [(n.id, hash(n)) for n in nodes] != ids_before:
+                errs.append(("failed-replace-changed-id", "a failing replace changed the id / hash of an existing node"))
             if before != after:
                 errs.append(("failed-replace-changed-registry", f"registry before {sorted(before)} after {sorted(after)}"))
         elif k == "detach":
